@@ -1,8 +1,7 @@
 (* C08 driver.  Cases (see harness/h_c08.cpp for the implementation side):
-     itoa <v>                 itoa<int>(v) then fast_atoi<int>(text)       -> "<text> <parsed>"
-     itoaS <v>                the same under the C++ rules (UBSan build): "<text> <parsed>" | "UB" (a sanitizer report in fast_atoi)
+     itoa <v>                 itoa<int>(v) then fast_atoi<int>(text)       -> "<text> <parsed>" | "UB" (sanitizer report in fast_atoi)
      utoa <v>                 itoa<unsigned>(v) then fast_atoi<unsigned>   -> "<text> <parsed>"
-     atoi <i|u|s> <term> <hex text>   fast_atoi<T>(text, term)             -> "<value>"
+     atoi <i|u|s> <term> <hex text>   fast_atoi<T>(text, term)             -> "<value>" | "UB"
      dtoa <p> <hex16 bits>    modp_dtoa(v, p) then fast_atof(text)         -> "<text> <hex16>" | "EXP"
      atof <hex text>          fast_atof(text)                              -> "<hex16>"
    Texts are shown with printable characters as they are and everything else as \xHH. *)
@@ -43,49 +42,38 @@ let ity_of s = match s with "i" -> (T_int, "-2147483648", "2147483647")
                           | "s" -> (T_ushort, "0", "65535")
                           | _ -> failwith "ity"
 
-let show_roundtrip r = match r with None -> "FUEL" | Some (t, p) -> show_text t ^ " " ^ string_of_z p
+(* outcome of a parse: the value, or "UB" (an undefined int operation: the sanitized build stops
+   with a report inside fast_atoi), or "OOB" *)
+let show_ar (r : atoi_result) : string = match r with AR_ok v -> string_of_z v | AR_overflow -> "UB" | AR_oob -> "OOB"
+let opt_ar (r : atoi_result) : z option = match r with AR_ok v -> Some v | _ -> None
 
-let int_case (rt : z -> (z list * z) option) (v : z) (impl : string) =
+let int_case (rt : z -> (z list * atoi_result) option) (v : z) (impl : string) =
   let r = rt v in
-  let om = (match r with Some (t, p) -> c08_int_ok v t p | None -> false) in
+  let (ms, om) = (match r with
+    | Some (t, AR_ok r) -> (show_text t ^ " " ^ string_of_z r, c08_int_strict_ok v t (Some r))
+    | Some (t, a) -> (show_ar a, c08_int_strict_ok v t None)
+    | None -> ("FUEL", false)) in
   let oi = (match words impl with
-            | [t; p] -> (try c08_int_ok v (parse_text t) (z_of_string p) with _ -> false)
+            | [t; p] -> (try c08_int_strict_ok v (parse_text t) (Some (z_of_string p)) with _ -> false)
             | _ -> false) in
-  (show_roundtrip r, oi, om)
+  (ms, oi, om)
 
 let () = run_protocol (fun case impl ->
   match words case with
   | ["itoa"; v] -> int_case int_roundtrip (z_of_string v) impl
   | ["utoa"; v] -> int_case uint_roundtrip (z_of_string v) impl
-  | ["itoaS"; v] ->
-    (* Where the checked model reports undefined behaviour the platform has two observable outcomes:
-       the sanitizer stops the process (token) or the operation wraps in two's complement (the result
-       of the wrapping model).  The model admits exactly these two and sides with the implementation
-       when it shows one of them; the oracle then judges that outcome. *)
-    let v = z_of_string v in
-    let wrap = int_roundtrip v in
-    let wrapline = show_roundtrip wrap in
-    let ub t token =
-      if impl = wrapline then
-        (wrapline, (match wrap with Some (t', r) -> c08_int_strict_ok v t' (Some r) | None -> false))
-      else (token, c08_int_strict_ok v t None) in
-    let (ms, om) = (match int_roundtrip_checked v with
-      | None -> ("FUEL", false)
-      | Some (t, AC_ok r) -> (show_text t ^ " " ^ string_of_z r, c08_int_strict_ok v t (Some r))
-      | Some (t, (AC_shift_negative | AC_shift_overflow | AC_overflow)) -> ub t "UB") in
-    let oi = (match words impl with
-              | [t; p] -> (try c08_int_strict_ok v (parse_text t) (Some (z_of_string p)) with _ -> false)
-              | _ -> false) in
-    (ms, oi, om)
   | ["atoi"; ty; term; hx] ->
     let (t, lo, hi) = ity_of ty in
     let text = zlist_of_hex hx in
     let r = fast_atoi t (z_of_string term) text in
     let lo = z_of_string lo and hi = z_of_string hi in
-    let ms = (match r with None -> "OOB" | Some v -> string_of_z v) in
-    let om = c08_atoi_ok lo hi text r in
+    let ms = show_ar r in
+    let om = c08_atoi_ok lo hi text (opt_ar r) in
     let iv = (try Some (z_of_string (if impl = "" || not (String.for_all (fun c -> c = '-' || (c >= '0' && c <= '9')) impl) then failwith "nan" else impl)) with _ -> None) in
-    let oi = (match iv with Some _ -> c08_atoi_ok lo hi text iv | None -> false) in
+    (* "UB": the parse did not complete (undefined int operation) -- acceptable exactly where the
+       property requires nothing, i.e. when the text is not a canonical decimal of the type *)
+    let oi = (match iv with Some _ -> c08_atoi_ok lo hi text iv
+                          | None -> impl = "UB" && c08_atoi_ok lo hi text None) in
     (ms, oi, om)
   | ["dtoa"; p; bits] ->
     let p = z_of_string p and v = read_f64 bits in
